@@ -1,3 +1,4 @@
 import VoluteModel.Model.Api
 import VoluteModel.Model.Sop
 import VoluteModel.Spec.EvalText
+import VoluteModel.Model.Optim
